@@ -56,7 +56,14 @@ def activate_known(mod, prop, tier, seed, entries, out):
 
 
 def write_evidence(mod, ctx, prop, tier, seed, wall, violations, known_lines):
-    samples = [json.loads(s) for _, s in sorted(ctx.samples, reverse=True)]
+    samples = []
+    strata = sorted(ctx.samples)
+    for depth in range(Ctx.PER_STRATUM):
+        for name in strata:
+            items = sorted(ctx.samples[name], reverse=True)
+            if depth < len(items) and len(samples) < Ctx.MAX_SAMPLES:
+                obj = json.loads(items[depth][1])
+                samples.append({"class": name, "case": obj} if name else obj)
     cov = {
         "evaluations": ctx.evaluations,
         "distinct_nontrivial": len(ctx.nontrivial),
